@@ -6,6 +6,8 @@
 //                        like std::erase: 2.5 removes no int, 259 removes no unsigned char), all contents up to length 4
 //   float_compare        relational operators of static_vector<double,N> / stack over {1, NaN, +0, -0}: all pairs up to
 //                        length 3 incl. an object compared with itself and with a copy (NaN != NaN also then)
+//   std_elements         static_vector<std::string,6> / stack: every 5-op history over push/insert/emplace/erase/erase(c,v)/
+//                        erase_if/swap/copy-assign/resize against std::vector<std::string> (ADL must not break the calls)
 //   copy_move            copy/move construction and assignment of static_vector / inplace_vector / stack over a tracked
 //                        non-trivial element from every fill level, result compared with std::vector + lifetime registry
 //                        (the uninitialized_copy/move algorithms behind them have a separate no-exceptions branch)
@@ -19,6 +21,7 @@
 
 #include <cmath>
 #include <limits>
+#include <string>
 #include <type_traits>
 #include <vector>
 
@@ -266,8 +269,88 @@ auto run_uninit(Case const& k) -> std::string
     return err;
 }
 
+// ---------------------------------------------------------------- std_elements
+// element types from namespace std (argument-dependent lookup finds the std:: algorithms as well): the whole surface has to
+// compile and to agree with std::vector.  a = five ops in base 9, b = value selector.
+auto run_std_elements(Case const& k) -> std::string
+{
+    using S = std::string;
+    etl::static_vector<S, 6> v, w;
+    std::vector<S> m, mw;
+    S const vals[4] = {S("pear"), S("apple, a long string that does not fit the small buffer"), S(""), S("fig")};
+    auto code        = k.a;
+    for (int step = 0; step < 5; ++step) {
+        auto const op = code % 9;
+        code /= 9;
+        S const& val = vals[(k.b + static_cast<std::uint32_t>(step)) % 4];
+        auto const pos = static_cast<std::ptrdiff_t>(m.empty() ? 0 : (k.b / 4 + static_cast<std::uint32_t>(step)) % (m.size() + 1));
+        switch (op) {
+        case 0:
+            if (m.size() < 6) {
+                v.push_back(val);
+                m.push_back(val);
+            }
+            break;
+        case 1:
+            if (m.size() < 6) {
+                v.insert(v.begin() + pos, val);
+                m.insert(m.begin() + pos, val);
+            }
+            break;
+        case 2:
+            if (m.size() < 6) {
+                v.emplace(v.begin() + pos, val.c_str());
+                m.emplace(m.begin() + pos, val.c_str());
+            }
+            break;
+        case 3:
+            if (!m.empty()) {
+                auto const e = std::min<std::ptrdiff_t>(pos, static_cast<std::ptrdiff_t>(m.size()) - 1);
+                v.erase(v.begin() + e);
+                m.erase(m.begin() + e);
+            }
+            break;
+        case 4: {
+            auto n = etl::erase(v, val);
+            auto e = std::erase(m, val);
+            if (static_cast<std::size_t>(n) != e) { return "static_vector<std::string,6>: erase(c, value) count differs"; }
+            break;
+        }
+        case 5: {
+            auto n = etl::erase_if(v, [](S const& x) { return x.empty(); });
+            auto e = std::erase_if(m, [](S const& x) { return x.empty(); });
+            if (static_cast<std::size_t>(n) != e) { return "static_vector<std::string,6>: erase_if count differs"; }
+            break;
+        }
+        case 6:
+            swap(v, w);
+            m.swap(mw);
+            break;
+        case 7:
+            w  = v;
+            mw = m;
+            break;
+        default:
+            v.resize(m.size() / 2);
+            m.resize(m.size() / 2);
+            break;
+        }
+        if (v.size() != m.size() || w.size() != mw.size()) { return "static_vector<std::string,6>: size differs from std::vector after op " + std::to_string(op); }
+        for (std::size_t i = 0; i < m.size(); ++i) {
+            if (v[i] != m[i]) { return "static_vector<std::string,6>: element " + std::to_string(i) + " differs after op " + std::to_string(op); }
+        }
+        if ((v == w) != (m == mw) || (v != w) != (m != mw) || (v < w) != (m < mw) || (v <= w) != (m <= mw) || (v > w) != (m > mw) || (v >= w) != (m >= mw)) { return "static_vector<std::string,6>: relational operators differ from std::vector"; }
+    }
+    etl::stack<S, etl::static_vector<S, 6>> st;
+    for (auto const& x : m) { st.push(x); }
+    auto st2 = st;
+    if (!(st == st2) || st != st2 || st.size() != m.size()) { return "stack<std::string>: copy does not compare equal"; }
+    return "";
+}
+
 auto run(std::string const& sub, Case const& k) -> std::string
 {
+    if (sub == "std_elements") { return run_std_elements(k); }
     if (sub == "erase_heterogeneous") { return run_erase(k); }
     if (sub == "float_compare") { return run_float(k); }
     if (sub == "copy_move") { return run_copy_move(k); }
@@ -303,6 +386,7 @@ void vf_run(vf::Ctx& c)
     sweep("float_compare", 2, 5 * 64, 5 * 64, [](Case const& k) { return k.a % 5 >= 1 && k.b % 5 >= 1; });
     sweep("copy_move", 12, 5, 5, [](Case const& k) { return k.a % 5 >= 2; });
     sweep("uninitialized", 3, 6, 1, [](Case const& k) { return k.a % 6 >= 2; });
+    sweep("std_elements", 1, 9 * 9 * 9 * 9 * 9, 3, [](Case const& k) { return k.a % 9 != 8; });
 #if defined(__cpp_exceptions)
     vf::label("built without exceptions (library's no-exceptions branches)", false);
 #else
